@@ -37,7 +37,7 @@ def run(rep, tier, seed):
     c01.proof_part(rep, PID, tier)
     npairs = 250 if tier == 'quick' else 5000
     cases64 = campaign.make_cases(rng, npairs, WEIGHTS, prec=64, prefix='a')
-    cases32 = campaign.make_cases(rng, npairs // 2, {'rect': 0.3, 'oct': 0.3, 'degen': 0.15, 'gp': 0.15, 'lat': 0.1, 'near': 0.08, 'fan': 0.05}, prec=32, prefix='s')
+    cases32 = campaign.make_cases(rng, npairs // 2, {'rect': 0.3, 'oct': 0.3, 'degen': 0.15, 'gp': 0.15, 'lat': 0.1, 'near': 0.08, 'fan': 0.05, 'ulp32': 0.2}, prec=32, prefix='s')
     cases = cases64 + cases32
     rep.log('%d cases x 2 profiles' % len(cases))
     allouts = {}
@@ -85,9 +85,10 @@ def run(rep, tier, seed):
     from .c18 import run_child
     nrect = 150000 if tier == 'quick' else 400000
     stack_scen = [('boolean-int', nrect, 'thread'), ('boolean-intdesc', nrect, 'thread'), ('boolean-intmix', nrect, 'thread'),
-                  ('boolean-dif', nrect, 'main'), ('boolean-intdesc', 4 * nrect, 'main')]
+                  ('boolean-dif', nrect, 'main'), ('boolean-intdesc', 4 * nrect, 'main'),
+                  ('boolean-uni', nrect, 'thread'), ('boolean-xor', nrect, 'thread'), ('boolean-inthit', nrect, 'thread')]
     from concurrent.futures import ThreadPoolExecutor
-    with ThreadPoolExecutor(max_workers=5) as ex:
+    with ThreadPoolExecutor(max_workers=8) as ex:
         sres = list(ex.map(run_child, stack_scen))
     rep.coverage['early_break_scenarios'] = {'%s n=%d' % (s[0], s[1]): r[0] for s, r in zip(stack_scen, sres)}
     for s, r in zip(stack_scen, sres):
